@@ -1,15 +1,18 @@
 /-
-F209 — a lower-case letter WITHOUT an upper-case mapping (Go: `IsLower('ß')`, `ToUpper('ß') = 'ß'`; 830
-such runes in Go's tables) pressed with no modifiers:
+F209 (FIXED in /repo: rule 6 of `Key.Matches` requires `ToUpper(key) != key`) — a lower-case letter WITHOUT an
+upper-case mapping (Go: `IsLower('ß')`, `ToUpper('ß') = 'ß'`; 830 such runes in Go's tables) pressed with no
+modifiers:
 
 * legacy report: the byte(s) of the character → `Key{Keycode: 'ß', Text: "ß"}`;
 * kitty report without the text field, `CSI 223 u` → `Key{Keycode: 'ß'}`.
 
-The binding ('ß', Shift) matches the first event (rule 6 of `Key.Matches`: "Shift + lower-case key:
-upper-case the key, drop Shift, compare with Text" — the upper case of 'ß' is 'ß' itself) but not the
-second.  So the unmodified key press fires a Shift binding under one encoding only, and
-`cross_protocol_char_plain` is false without its hypothesis "no lower-case rune upper-cases to c".
-`latinUni` carries Go's values for 'ß' (and ASCII, 'é', 'É').
+Before the fix the binding ('ß', Shift) matched the first event (rule 6: "Shift + lower-case key: upper-case
+the key, drop Shift, compare with Text" — the upper case of 'ß' is 'ß' itself) but not the second: an
+unmodified key press fired a Shift binding, and under one encoding only.  This file now proves the
+regression statements on the model of the fixed code (`eszett_*`: the Shift binding fires under neither
+encoding), and that the remaining hypothesis of `cross_protocol_char_plain` ("no lower-case rune with an upper
+case of its own upper-cases to c") cannot be dropped: `greekUni` carries Go's values for ᾀ (U+1F80, lower case)
+and ᾈ (U+1F88, its title-case upper case, `IsUpper` false).  `latinUni` carries Go's values for 'ß'.
 -/
 import VaxisModel.Props.C09Uni
 
@@ -25,27 +28,44 @@ def cross_protocol_char_plain_full : Prop :=
     ∀ b m, «matches» u (decodeKey u (.print [c])) b m =
            «matches» u (decodeKey u (kittySeq c 117 { key := c, text := [c] } f)) b m
 
-/-- The model on the concrete instance: plain 'ß', legacy byte vs `CSI 223 u`, binding ('ß', Shift). -/
-theorem eszett_differs :
-    «matches» latinUni (decodeKey latinUni (.print [223])) 223 shiftBit = true ∧
+/-- Plain 'ß', legacy byte vs `CSI 223 u`, binding ('ß', Shift): fires under neither encoding (before the
+    fix: `true` for the legacy event). -/
+theorem eszett_same :
+    «matches» latinUni (decodeKey latinUni (.print [223])) 223 shiftBit = false ∧
     «matches» latinUni (decodeKey latinUni (kittySeq 223 117 { key := 223, text := [223] } {})) 223 shiftBit = false := by
   decide
 
 /-- The same with the modifier field and the event type present (`CSI 223;1:1 u`). -/
-theorem eszett_differs_with_mods :
+theorem eszett_same_with_mods :
     «matches» latinUni (decodeKey latinUni (kittySeq 223 117 { key := 223, text := [223] } { withMods := true, withEvent := true })) 223 shiftBit = false := by
   decide
 
-/-- With the text field (`CSI 223;1;223 u`) both events match it: the difference is between a report
-    with and one without text, whatever the protocol. -/
+/-- And with the text field (`CSI 223;1;223 u`). -/
 theorem eszett_same_with_text :
-    «matches» latinUni (decodeKey latinUni (kittySeq 223 117 { key := 223, text := [223] } { withMods := true, withText := true })) 223 shiftBit = true := by
+    «matches» latinUni (decodeKey latinUni (kittySeq 223 117 { key := 223, text := [223] } { withMods := true, withText := true })) 223 shiftBit = false := by
+  decide
+
+/-- ASCII plus ᾀ (8064, lower case, upper case ᾈ) and ᾈ (8072, title case: neither upper nor lower). -/
+def greekUni : Uni where
+  isUpper r := asciiUni.isUpper r
+  isLower r := asciiUni.isLower r || decide (r = 8064)
+  isLetter r := asciiUni.isLetter r || decide (r = 8064) || decide (r = 8072)
+  isGraphic r := asciiUni.isGraphic r || decide (r = 8064) || decide (r = 8072)
+  isPrint r := asciiUni.isPrint r || decide (r = 8064) || decide (r = 8072)
+  toUpper r := if r = 8064 then 8072 else asciiUni.toUpper r
+  toLower r := if r = 8072 then 8064 else asciiUni.toLower r
+  foldEq a b := asciiUni.foldEq a b || decide (a = 8064 ∧ b = 8072) || decide (a = 8072 ∧ b = 8064)
+
+/-- The character ᾈ as a "key": the binding (ᾀ, Shift) matches its legacy event (text ᾈ) only. -/
+theorem titlecase_differs :
+    «matches» greekUni (decodeKey greekUni (.print [8072])) 8064 shiftBit = true ∧
+    «matches» greekUni (decodeKey greekUni (kittySeq 8072 117 { key := 8072, text := [8072] } {})) 8064 shiftBit = false := by
   decide
 
 theorem cross_protocol_char_plain_full_fails : ¬ cross_protocol_char_plain_full := by
   intro h
-  have h2 := (h latinUni 223 {} (by decide) (by decide) (by decide) (by decide +kernel) ⟨rfl, rfl⟩ (fun _ => by decide)).2 223 shiftBit
-  rw [eszett_differs.1, eszett_differs.2] at h2
+  have h2 := (h greekUni 8072 {} (by decide) (by decide) (by decide) (by decide +kernel) ⟨rfl, rfl⟩ (fun _ => by decide)).2 8064 shiftBit
+  rw [titlecase_differs.1, titlecase_differs.2] at h2
   cases h2
 
 end VaxisModel.Witness.F209
